@@ -163,16 +163,17 @@ PROPS = {
         ],
     },
     "C18": {
-        "lean_modules": ["TableauVerif.Props.C18"],
-        "oracles": ["c18.prep", "c18.incr"],
+        "lean_modules": ["TableauVerif.Props.C18", "TableauVerif.Props.C18Incr"],
+        "oracles": ["c18.prep", "c18.incr", "c18.related"],
         "streams": [
             ("corr.protogen.prepareOutdir", 3000, 100000),
             ("corr.xfs.clean", 30000, 400000),
             ("e2e.C18.incremental", 20, 300, 5),
+            ("e2e.C18.related", 150, 6000),
         ],
         "assumptions": [
             "file systems are finite maps from paths to bytes; os.Remove / WriteFile are trusted to implement the map operations",
-            "modelled: path.Clean on slash paths and prepareOutdir's removal rule over a directory listing; the incremental-equals-full half is decided by the end-to-end stream (real GenProto/GenConf with workbook arguments vs. a fresh full run, recursive sha256 snapshots of input and output trees), not by a theorem yet (partial)",
+            "modelled: path.Clean on slash paths and prepareOutdir's removal rule over a directory listing; the workbook index behind incremental generation (buildWorkbookIndex / GenWorkbook: which primary books read a named workbook, as their own book or through Merger / Scatter specifiers) is Model.Incremental, tied by e2e.C18.related (generated trees with shared sources and books that are both primary and source; the real incremental Generate into an empty directory must write exactly the conf files of the related primary books) and proved to write what the full run writes, completely and confined (Props.C18Incr); that converting one primary book is a function of that book and its inputs is C04 / C16; byte equality with a fresh full run is decided by e2e.C18.incremental (recursive sha256 snapshots of input and output trees)",
         ],
     },
     "C06": {
